@@ -27,7 +27,7 @@ def runner_ensures(fn, nparams, valued):
 
 UNITS["v_closure_runner"] = dict(
     prop=["C13", "C06", "C07"], tier="q", prelude=["interp.rs", "closure.rs"],
-    native_witness=["closure_scope", "ctl_programs"],
+    native_witness={"C13": ["closure_scope"], "C06": ["ctl_programs"], "C07": ["ctl_programs"]},
     fns=[
         dict(id="cleanup", file=CLOSURE, impl=None, name="cleanup",
              orig_sig="fn cleanup(state: &mut RuntimeState, ident: Option<&Ident>, data: Option<Value>)",
@@ -78,13 +78,13 @@ UNITS["v_closure_runner"] = dict(
 OPRS = "src/compiler/expression/op.rs"
 PRE, POST = "old(ctx).trace@", "final(ctx).trace@"
 CTL = ("ctl_propagates(%s, %s, r)" % (PRE, POST))
-RW_USE_VALUE = dict(**{"from": "use crate::value::Value::{Boolean, Null};", "to": "use crate::Value::{Boolean, Null};", "why": "module path of the prelude Value"})
+RW_USE_VALUE = dict(**{"from": "use crate::value::Value::", "to": "use crate::Value::", "why": "module path of the prelude Value"})
 RW_USE_OPCODE = dict(**{"from": "use ast::Opcode::", "to": "use crate::Opcode::", "why": "module path of the prelude Opcode"})
 RW_FALSE_INTO = dict(**{"from": "Ok(false.into())", "to": "Ok(Value::Boolean(false))", "why": "From<bool> for Value"})
 RW_OK_INTO = dict(**{"from": r"Ok\((\(?!?lhs\.eq_lossy\(&rhs\)\)?)\.into\(\)\)", "to": r"Ok(Value::Boolean(\1))", "regex": True, "why": "From<bool> for Value"})
 
 UNITS["v_op_resolve"] = dict(
-    prop=["C06", "C07", "C08", "C09"], tier="q", prelude=["interp.rs", "nodes.rs", "op.rs"], native_witness=["ctl_programs"],
+    prop=["C06", "C07", "C08", "C09"], tier="q", prelude=["interp.rs", "nodes.rs", "op.rs"], native_witness={"C06": ["ctl_programs"], "C07": ["ctl_programs"], "C08": ["ctl_programs"], "C09": ["ctl_programs"]},
     fns=[dict(
         id="op_resolve", file=OPRS, impl="impl Expression for Op", name="resolve",
         orig_sig="fn resolve(&self, ctx: &mut Context) -> Resolved",
@@ -200,7 +200,7 @@ ABORT_MSG = dict(**{
     "why": "Option::map(f).transpose()? by definition; try_bytes_utf8_lossy()?.to_string() is the opaque conversion try_message"})
 
 UNITS["v_nodes"] = dict(
-    prop=["C06", "C07", "C08", "C09"], tier="q", prelude=["interp.rs", "nodes.rs"], native_witness=["ctl_programs"],
+    prop=["C06", "C07", "C08", "C09"], tier="q", prelude=["interp.rs", "nodes.rs"], native_witness={"C06": ["ctl_programs"], "C07": ["ctl_programs"], "C08": ["ctl_programs"], "C09": ["ctl_programs"]},
     fns=[
         dict(id="not", file=EXPR + "not.rs", impl="impl Expression for Not", name="resolve", orig_sig=SIG_RESOLVE,
              wrap=("impl Not {", "}"), sig=VSIG,
@@ -306,11 +306,11 @@ NODES += [
                    dict(**{"from": "Value::from(error.to_string())", "to": "error.to_message_value()", "why": "error message string as a Value (opaque bytes)"})],
          ensures=ctl_clauses("assignment") + [
              ("C08.assign.single", "`target = e`: when e succeeds with v, v is stored in target (one write) and is the value of the assignment; when e does not succeed nothing is written",
-              "self is Single ==> added(%s, %s) >= 1 && eval_of(nth(%s, %s, 0), self->Single_expr.id@) && (outcome(nth(%s, %s, 0)) is Ok ==> added(%s, %s) == 2 && nth(%s, %s, 1) == Ev::Write(self->Single_target.id@, outcome(nth(%s, %s, 0))->Ok_0) && r == outcome(nth(%s, %s, 0))) && (outcome(nth(%s, %s, 0)) is Err ==> added(%s, %s) == 1 && r == outcome(nth(%s, %s, 0)))" % ((PRE, POST) * 10)),
+              "self is Single ==> added(%s, %s) >= 1 && eval_of(nth(%s, %s, 0), self->Single_expr.id@) && (outcome(nth(%s, %s, 0)) is Ok ==> added(%s, %s) == 2 && nth(%s, %s, 1) == Ev::Write(self->Single_target.tid(), outcome(nth(%s, %s, 0))->Ok_0) && r == outcome(nth(%s, %s, 0))) && (outcome(nth(%s, %s, 0)) is Err ==> added(%s, %s) == 1 && r == outcome(nth(%s, %s, 0)))" % ((PRE, POST) * 10)),
              ("C08.assign.infallible_ok", "`ok, err = e`: when e succeeds with v: ok := v, err := null, value v",
-              "self is Infallible && outcome(nth(%s, %s, 0)) is Ok ==> added(%s, %s) == 3 && nth(%s, %s, 1) == Ev::Write(self->Infallible_ok.id@, outcome(nth(%s, %s, 0))->Ok_0) && nth(%s, %s, 2) == Ev::Write(self->Infallible_err.id@, Value::Null) && r == outcome(nth(%s, %s, 0))" % ((PRE, POST) * 6)),
+              "self is Infallible && outcome(nth(%s, %s, 0)) is Ok ==> added(%s, %s) == 3 && nth(%s, %s, 1) == Ev::Write(self->Infallible_ok.tid(), outcome(nth(%s, %s, 0))->Ok_0) && nth(%s, %s, 2) == Ev::Write(self->Infallible_err.tid(), Value::Null) && r == outcome(nth(%s, %s, 0))" % ((PRE, POST) * 6)),
              ("C08.assign.infallible_err", "`ok, err = e`: when e fails with a runtime error: ok := the stored default, err := the message, value = the message",
-              "self is Infallible && outcome(nth(%s, %s, 0)) is Err && !is_ctl(outcome(nth(%s, %s, 0))->Err_0) ==> added(%s, %s) == 3 && nth(%s, %s, 1) == Ev::Write(self->Infallible_ok.id@, self->Infallible_default) && nth(%s, %s, 2) is Write && nth(%s, %s, 2)->Write_0 == self->Infallible_err.id@ && nth(%s, %s, 2)->Write_1 is Bytes && r == Ok::<Value, ExpressionError>(nth(%s, %s, 2)->Write_1)" % ((PRE, POST) * 8)),
+              "self is Infallible && outcome(nth(%s, %s, 0)) is Err && !is_ctl(outcome(nth(%s, %s, 0))->Err_0) ==> added(%s, %s) == 3 && nth(%s, %s, 1) == Ev::Write(self->Infallible_ok.tid(), self->Infallible_default) && nth(%s, %s, 2) is Write && nth(%s, %s, 2)->Write_0 == self->Infallible_err.tid() && nth(%s, %s, 2)->Write_1 is Bytes && r == Ok::<Value, ExpressionError>(nth(%s, %s, 2)->Write_1)" % ((PRE, POST) * 8)),
              ("C08.assign.expr_first", "the right-hand side is evaluated first, exactly once",
               "added(%s, %s) >= 1 && nth(%s, %s, 0) is Eval && (forall|k: int| 1 <= k < added(%s, %s) ==> !((#[trigger] nth(%s, %s, k)) is Eval))" % ((PRE, POST) * 4)),
          ],
@@ -335,7 +335,7 @@ NODES += [
 
 
 UNITS["v_value_error_from"] = dict(
-    prop=["C06", "C07", "C08"], tier="q", prelude=["interp.rs", "nodes.rs", "op.rs"], native_witness=["ctl_programs"],
+    prop=["C06", "C07", "C08"], tier="q", prelude=["interp.rs", "nodes.rs", "op.rs"], native_witness={"C06": ["ctl_programs"], "C07": ["ctl_programs"], "C08": ["ctl_programs"], "C09": ["ctl_programs"]},
     fns=[dict(
         id="value_error_from", file="src/compiler/value/error.rs", impl="impl From<ValueError> for ExpressionError", name="from",
         orig_sig="fn from(err: ValueError) -> Self",
@@ -384,7 +384,7 @@ proof fn law_remove_is_get(s: Seq<Value>, key: int)
 '''
 
 UNITS["v_crud_vec"] = dict(
-    prop=["C18"], tier="q", prelude=["crud.rs"], extra=LAWS, native_witness=["crud_vec"],
+    prop=["C18"], tier="q", prelude=["crud.rs"], extra=LAWS, native_witness={"C18": ["crud_vec"]},
     fns=[
         dict(id="array_index", file=CRUD, impl=None, name="array_index",
              orig_sig="fn array_index(array: &[Value], index: isize) -> Option<usize>",
@@ -431,7 +431,7 @@ UNITS["v_crud_vec"] = dict(
 
 # ------------------------------------------------------------------------------------------------
 UNITS["v_format_radix"] = dict(
-    prop=["C25", "C04", "C05"], tier="q", prelude=["format_int.rs"], native_witness=["format_int"],
+    prop=["C25", "C04", "C05"], tier="q", prelude=["format_int.rs"], native_witness={"C25": ["format_int"], "C04": ["format_int"]},
     extra='''
 proof fn lemma_round_trip(x: i64, radix: int, out: Seq<char>)
     requires out.len() >= 1, (x < 0) == (out[0] == '-'),
@@ -552,7 +552,7 @@ UNITS["v_target_ops"] = dict(
 SEGM = "|a: OwnedSegment, p: OwnedSegment| seg_match(a, p)"
 SEGA = "|a: OwnedSegment, p: OwnedSegment| seg_may_alias(a, p)"
 UNITS["v_read_only"] = dict(
-    prop=["C15"], tier="q", prelude=["readonly.rs"], native_witness=["read_only"],
+    prop=["C15"], tier="q", prelude=["readonly.rs"], native_witness={"C15": ["read_only"]},
     fns=[
         dict(id="segment_can_start_with", file="src/path/owned.rs", impl="impl OwnedSegment", name="can_start_with",
              orig_sig="fn can_start_with(&self, prefix: &OwnedSegment) -> bool",
